@@ -327,7 +327,8 @@ GRID_OPERANDS = ["", "1", "x", "lab", "undef", "#1", "#x", "@#x", "@#lab", "(r1)
                  "^Rabc", "^X1f", "^B101", "^C1", "1.", "0x1f", "8", "r1", "%1", "%x", "%lab", "ac1", "sp", "{ nop }", "{ .word . }", "all", ".", ".+2", "x==1", "x=1", "a b",
                  "10/0", "x/lab", "lab/2", "lab*2", "1<<x", "lab-lab", "lab+lab", "x:", "@@x", "##1", "@r1", "@lab", "(lab)", "lab(r1)", "(r1)(r2)", "-(1)", "#", "@", ",",
                  "<20000000000000>", "/zz/<20000000000000>", "<-1>", "^R\u212a", "^Ra\u017f", "\"\u0131\"", "'\u212a", "1\u00b2", "\u0d6f", "<0>", "/a/<0>/b/",
-                 "<50><47>", "<50>/99/", "<47><47><47>", "<50>", "\u017f", "#\u017f", "/\u017f/", "<177777>", "<200000>", "-1", "177777", "200000", "-200000"]
+                 "<50><47>", "<50>/99/", "<47><47><47>", "<50>", "\u017f", "#\u017f", "/\u017f/", "<177777>", "<200000>", "-1", "177777", "200000", "-200000",
+                 "'\\q'", "\"a\\q\"", "\"\\q\\q\"", "'\\q", "'\\n'", "\"ab\"", "'ab'"]
 GRID_MNEMONICS = ["nop", "clr", "mov", "jsr", "mul", "xor", "br", "sob", "rts", "spl", "mark", "emt", "ldf", "stf", "ldexp", "stcfi", "push", "call", "jmp", "cmpb"]
 GRID_OTHER = ["t\u017ft", "\u017fob", ".a\u017fcii", "\u017f", "\u017f:", "\u017f =", ".lin\u212a", "x", "lab", "undef", "1", "-1", "'a", ".", "x:", "1$:", "x =", "x ==", "lab::", "lab =", ". =", "1$", "r1", "%", "#1", "@x", "(x)", "<x>", "\"ab\""]
 GRID_CONTEXTS = ["plain", "repeat", "lazy-repeat", "linked"]
